@@ -683,12 +683,12 @@ theorem numDir_last (b : Str) (n : Nat) : numDir b n ≠ [] ∧ (numDir b n).get
 
 /-- `makeRunnable` (`os.path.join(dir, "workspace")`) does not identify two stored directories -/
 theorem workspace_inj {b b' : Str} {n n' : Nat}
-    (h : pjoin (numDir b n) "workspace".toList = pjoin (numDir b' n') "workspace".toList) :
+    (h : pjoin (numDir b n) Consts.C16.workspaceName = pjoin (numDir b' n') Consts.C16.workspaceName) :
     numDir b n = numDir b' n' := by
   have h1 := numDir_last b n
   have h2 := numDir_last b' n'
   unfold pjoin at h
-  simp only [show ("workspace".toList).head? ≠ some '/' by decide, if_false, h1.1, h1.2, h2.1, h2.2,
+  simp only [show (Consts.C16.workspaceName).head? ≠ some '/' by decide, if_false, h1.1, h1.2, h2.1, h2.2,
     false_or] at h
   exact List.append_cancel_right h
 
